@@ -339,9 +339,13 @@ def act_str(a):
 class Explorer:
     """Level-synchronous BFS. A state is stored as the history that reaches it; workers rebuild it by replay."""
 
-    def __init__(self, pp, vidx, spec, seed_history, alphabet, monitors, label='', track_path=False, via_recipe=False):
+    def __init__(self, pp, vidx, spec, seed_history, alphabet, monitors, label='', track_path=False, via_recipe=False,
+                 repeat=False):
         self.track_path = track_path
         self.via_recipe = via_recipe          # perform every action as a single recipe step (declare, add, bake)
+        # repeat: the judged call is the SECOND of two identical calls made through the very same operand objects (a slice kept in
+        # a variable and used again); operations return new values, so it is judged against the same pre-state as the first
+        self.repeat = repeat
         self.pp, self.vidx, self.spec = pp, vidx, spec
         self.seed_history = list(seed_history)
         self.alphabet = list(alphabet)
@@ -350,7 +354,8 @@ class Explorer:
 
     def case(self, hist_idx, act):
         return {'vidx': self.vidx, 'spec': self.spec, 'seed_history': self.seed_history,
-                'history': [self.alphabet[i] for i in hist_idx], 'act': act, 'sweep': self.label, 'via_recipe': self.via_recipe}
+                'history': [self.alphabet[i] for i in hist_idx], 'act': act, 'sweep': self.label, 'via_recipe': self.via_recipe,
+                'repeat': self.repeat}
 
     def _expand(self, item):
         """Worker: rebuild the state reached by hist_idx, apply the actions lo..hi, run monitors."""
@@ -366,7 +371,13 @@ class Explorer:
         for ai in range(lo, hi):
             act = self.alphabet[ai]
             env.clear_caches(pp)
-            obs = (apply_via_recipe if self.via_recipe else apply)(pp, subs, world, act)
+            if self.repeat:
+                held = {}
+                obs = apply(pp, subs, world, act, held)
+                if obs['ok']:
+                    obs = apply(pp, subs, world, act, held)
+            else:
+                obs = (apply_via_recipe if self.via_recipe else apply)(pp, subs, world, act)
             post = commit(world, obs) if obs['ok'] else world
             ctx = {'pp': pp, 'subs': subs, 'k': k, 'case': self.case(hist_idx, act), 'pre_exact': pre_exact,
                    'path_objects': path_objects or ()}
@@ -467,7 +478,13 @@ def replay_case(pp, case, monitors):
     env.clear_caches(pp)
     act = case['act']
     pre_exact = exact_world(world)
-    obs = (apply_via_recipe if case.get('via_recipe') else apply)(pp, subs, world, act)
+    if case.get('repeat'):
+        held = {}
+        obs = apply(pp, subs, world, act, held)
+        if obs['ok']:
+            obs = apply(pp, subs, world, act, held)
+    else:
+        obs = (apply_via_recipe if case.get('via_recipe') else apply)(pp, subs, world, act)
     post = commit(world, obs) if obs['ok'] else world
     ctx = {'pp': pp, 'subs': subs, 'k': len(history), 'case': case, 'pre_exact': pre_exact, 'path_objects': path_objects}
     vs = []
